@@ -144,14 +144,33 @@ fn rust_path(p: &str) -> String {
     format!("crate::{p}")
 }
 
+/// Offset (as a Rust expression) from the start of `x` to where its vftable pointer is
+/// physically stored: its own field at 0, or inside the first base that carries one.
+pub fn primary_ptr_offset_expr(env: &Env, x: &str, depth: usize) -> Option<String> {
+    if depth > 16 {
+        return None;
+    }
+    if env.gets_own_vftable_ptr(x) {
+        return Some("0usize".to_string());
+    }
+    match env.bases(x).first() {
+        Some((f, Some(b))) if env.has_vftable(b) => Some(format!(
+            "::std::mem::offset_of!({}, {f}) + {}",
+            rust_path(x),
+            primary_ptr_offset_expr(env, b, depth + 1)?
+        )),
+        _ => None,
+    }
+}
+
 fn plan_subobjects(env: &Env, x: &str, off_expr: &str, shared: bool, out: &mut Vec<SubObj>, depth: usize) {
     if depth > 16 {
         return;
     }
     if !shared && env.has_vftable(x) {
-        if let Some(owner) = env.vftable_owner(x) {
+        if let (Some(owner), Some(p)) = (env.vftable_owner(x), primary_ptr_offset_expr(env, x, 0)) {
             out.push(SubObj {
-                off_expr: off_expr.to_string(),
+                off_expr: format!("{off_expr} + {p}"),
                 owner,
             });
         }
@@ -351,8 +370,8 @@ impl ExecBuilder {
                     ));
                 }
                 code.push_str(&format!("        unsafe {{ __o.put_ptr({}, __tbl{k}.ptr as *const u8); }}\n", so.off_expr));
-                if k == 0 && so.off_expr == "0usize" {
-                    code.push_str(&format!("        crate::rt::val(\"primary_table\", __tbl{k}.addr());\n"));
+                if k == 0 && env.has_vftable(path) {
+                    code.push_str(&format!("        crate::rt::val(\"primary_table\", __tbl{k}.addr());\n        crate::rt::val(\"primary_off\", ({}) as u64);\n", so.off_expr));
                 }
             }
             Some((code, placeholders))
@@ -1013,6 +1032,11 @@ pub fn judge_step(e: &StepExp, log: &RunLog, runtime: &str, bad: &mut Vec<(Strin
     }
     match &e.expect {
         Expect::Call { prop, what, exp } => {
+            if *prop == "C04" && num(st, "primary_off").unwrap_or(0) != 0 {
+                // the property assumes a vftable-carrying first base at offset 0
+                *stats.entry(format!("{runtime}/C04/outside_offset0_assumption")).or_insert(0) += 1;
+                return;
+            }
             let obj = num(st, "obj").unwrap_or(0) as u64;
             let recv_off = num(st, "recv_off").unwrap_or(0) as u64;
             let calls: Vec<&serde_json::Value> = st.events.iter().filter(|v| v["k"] == "stub" || v["k"] == "abs").collect();
